@@ -73,3 +73,9 @@ Theorem builder_flat_correct : forall cols : list colspec,
             (Z.of_nat (length (b_elems b)) <= b_capacity b)%Z.
 Proof. exact builder_flat_correct_thm. Qed.
 Print Assumptions builder_flat_correct.
+
+(** Builder: EVERY call sequence - add_column and add_group in any order with any arguments, any length - completes without
+    a store outside the (growing) allocations; element count <= capacity and leaf count < element count always hold. *)
+Theorem builder_never_faults : forall ops, exists b rets, run_ops schema_create ops [] = Ok (b, rets) /\ bsafe b.
+Proof. exact builder_never_faults_thm. Qed.
+Print Assumptions builder_never_faults.
